@@ -327,3 +327,39 @@ def r_unreachable_lock_raise(ctx: Ctx, rule: str):
                 rep.ob(rule, "`raise PoolIsLocked` is unreachable from this spawner's _start_task call", not hits, node=s,
                        detail="" if not hits else f"reaches {hits[0][0].where()} `{hits[0][0].text(40)}` (ignore_lock is not the constant True on this path)")
     rep.floor(rule, "_start_task calls in spawners", n, 3)
+
+
+def r_spawner_group(ctx: Ctx, rule: str):
+    rep = ctx.rep
+    rep.rule(rule, "every task a spawner starts goes into the spawner's own group: the group_name handed to _start_task is the spawner's group_name parameter")
+    n = 0
+    for name in SPAWNERS:
+        for f in ctx.pool_funcs(name, required=False):
+            for s in ctx.distinct_sites(ctx.nodes(f, lambda m: ctx.is_call_to(m, "_start_task"))):
+                n += 1
+                t = s.callee.targets[0]
+                g = expr_role(ctx, f, ctx.call_arg(s.ast, t, "group_name"))
+                rep.ob(rule, "the task is started in the spawner's own group", g == "GROUP", node=s, detail=f"group_name role {g}")
+    rep.floor(rule, "_start_task calls in spawners", n, 3)
+
+
+def r_map_returns_name(ctx: Ctx, rule: str):
+    rep = ctx.rep
+    rep.rule(rule, "map/starmap/doublestarmap return exactly the group name they hand to _map")
+    for name in ("map", "starmap", "doublestarmap"):
+        for f in ctx.pool_funcs(name):
+            calls = ctx.distinct_sites(ctx.nodes(f, lambda m: ctx.is_call_to(m, "_map")))
+            rets = ctx.distinct_sites(ctx.nodes(f, lambda m: m.op == "return"))
+            for c in calls:
+                a = ctx.call_arg(c.ast, c.callee.targets[0], "group_name")
+                for r in rets:
+                    same = a is not None and r.ast.value is not None and ast.unparse(a) == ast.unparse(r.ast.value) and isinstance(a, ast.Name)
+                    rep.ob(rule, f"{name} returns the name under which the group was created", same, node=r, detail=f"_map gets {ast.unparse(a) if a is not None else None}")
+            # the name is either the caller's or a generated one; it is not modified between the call and the return
+            for r in rets:
+                if isinstance(r.ast.value, ast.Name):
+                    nm = r.ast.value.id
+                    for c in calls:
+                        mid = between([c], [r])
+                        reb = [m for m in mid if m.op in ("assign", "aug") and any(isinstance(t, ast.Name) and t.id == nm for t in ast.walk(m.ast) if isinstance(t, ast.Name) and isinstance(t.ctx, ast.Store))]
+                        rep.ob(rule, "the name is not rebound between creating the group and returning it", not reb, node=r)
